@@ -384,6 +384,25 @@ class SimSocket:
             s.probe("short-read")
         return p.pop(k)
 
+    def recv_into(self, buffer, nbytes=0, flags=0):
+        mv = memoryview(buffer)
+        n = len(mv) if not nbytes else min(nbytes, len(mv))
+        data = self.recv(n)
+        mv[:len(data)] = data
+        return len(data)
+
+    def settimeout(self, t):
+        if t is not None:
+            raise HarnessError("SimSocket: socket timeouts are not simulated")
+
+    def setblocking(self, flag):
+        if not flag:
+            raise HarnessError("SimSocket: non-blocking sockets are not simulated")
+
+    def __getattr__(self, name):
+        # an API of real sockets that the simulator does not model: machinery trouble, never a finding
+        raise HarnessError(f"SimSocket has no {name!r} (socket API not simulated)")
+
     def shutdown(self, how):
         self.s.switch("shutdown", self.label)
         if self.state == "listening":
